@@ -65,6 +65,9 @@ func c08Gen(r *gen.R) WLCase {
 	if r.Chance(1, 2) {
 		w.Scheme = []string{"random", "one"}[r.Intn(2)]
 	}
+	if r.Chance(1, 8) { // long passwords: the float32 arithmetic of the published value is still exact enough
+		w.Length = []int{10, 16, 17, 32, 33, 64, 65, 100, 255, 256, 1000, 3000}[r.Intn(12)]
+	}
 	// constructed separators: keep them honourable (sfWrap swallows refusals)
 	return w
 }
